@@ -112,6 +112,7 @@ func verifyFunc(p *Program, c *Contract, prop string) (res *FuncResult) {
 	for _, rq := range c.Requires {
 		st.assume(ev.evalBool(rq.Text))
 	}
+	st.markBoundary()
 	x.entry = st.clone()
 	x.entry.noSide = true
 	x.entryFr = fr
@@ -192,7 +193,7 @@ func (x *Exec) atReturn(fr *Frame, st *State, rv []Val) {
 	x.checkPropagation(st, rv, false)
 	// cover: this return is reachable (used for vacuity reporting only)
 	if x.retCount <= 64 {
-		x.obligeX(st, "cover", fmt.Sprintf("cover-return#%d", x.retCount), allProps(c, x.prop), tTrue, "return path reachable", "", false, true)
+		x.obligeX(st, "cover", fmt.Sprintf("cover-return#%d", x.retCount), allProps(c, x.prop), tTrue, "return path reachable: "+strings.Join(st.trace, " "), "", false, true)
 	}
 }
 
@@ -227,7 +228,7 @@ func (x *Exec) frameCheckAgainst(st *State, snap *State, items []string, oev *sp
 			switch b := base.(type) {
 			case Sl:
 				et := b.GT.Underlying().(*types.Slice).Elem()
-				locs = append(locs, loc{prefix: "elem:" + typeStr(et), idx: []Term{b.Base}})
+				locs = append(locs, loc{prefix: x.elemPrefix(b.Base, et), idx: []Term{b.Base}})
 			case Sc:
 				mt := b.GT.Underlying().(*types.Map)
 				d, v, s := x.mapClassesOf(b.T, mt)
